@@ -25,6 +25,15 @@ Theorem C02_tree_paths_replay : forall (St C : Type) (stepf : C -> St -> St) (va
   ends St C stepf s (map (fun e => let '(c, _, r, _) := e in (c, r)) edges) = map (fun e => let '(_, _, _, res) := e in res) edges /\
   Forall (fun blk => Forall (fun x => valid x = true) blk) (replay St C stepf s (map (fun e => let '(c, _, r, _) := e in (c, r)) edges)).
 Proof. exact pwv_chain_replays. Qed.
+(* the directed control sampler (SimpleDirectedControlSampler::getBestControl with k candidates): the control, step count
+   and state it hands to the planner are consistent — the state is what the control reaches from the source in exactly
+   that many steps, all of them valid, at most the sampled count — and no candidate ended closer to the target *)
+Theorem C02_directed_sampler_result_replays : forall (St C : Type) (stepf : C -> St -> St) (valid : St -> bool) (dist : St -> Z) s first rest,
+  let '(c, n, st) := best_control St C stepf valid dist s first rest in
+  (exists m, In (c, m) (first :: rest) /\ n <= m /\ (n, st) = pwv St C stepf valid s c m) /\
+  st = iter St C stepf c n s /\ (forall k, 1 <= k <= n -> valid (iter St C stepf c k s) = true) /\
+  (forall cn, In cn (first :: rest) -> (dist st <= dist (snd (pwv St C stepf valid s (fst cn) (snd cn))))%Z).
+Proof. exact best_control_spec. Qed.
 (* meaning of the admission rule applied to every observed run *)
 Theorem C02_admission_sound : forall r, cadjudicate r = CVok ->
   (c_is_solution (cr_status r) = true -> C02_solution r) /\ (c_is_solution (cr_status r) = false -> cr_paths_after r = cr_paths_before r).
@@ -33,6 +42,7 @@ Proof. exact cadjudicate_sound. Qed.
 Print Assumptions C02_propagateWhileValid_spec.
 Print Assumptions C02_propagateWhileValid_states_spec.
 Print Assumptions C02_tree_paths_replay.
+Print Assumptions C02_directed_sampler_result_replays.
 Print Assumptions C02_admission_sound.
 
 Example C02_nonvacuous :
@@ -40,3 +50,8 @@ Example C02_nonvacuous :
   cadjudicate (mkCR 6 true 0 1 false 0 true 3 [mkCS 4 true true true true true; mkCS 2 true true true true true] true 0) = CVok /\
   cadjudicate (mkCR 6 true 0 1 false 0 true 3 [mkCS 4 true true true true true; mkCS 2 true true true false true] true 0) = CVreplay.
 Proof. vm_compute. repeat split. Qed.
+(* the directed sampler: from 0 towards 10 with 3 invalid; (+2 x 4) stops after 1 step at 2, (+5 x 3) reaches 15, (+1 x 9) stops at 2:
+   the second candidate wins with its own step count *)
+Example C02_directed_nonvacuous :
+  dcs_run 0 10 [3%Z; 4%Z] (2%Z, 4) [(5%Z, 3); (1%Z, 9)] = (5%Z, 3, 15%Z) /\ dcs_run 0 10 [4%Z; 5%Z] (2%Z, 4) [(5%Z, 3); (1%Z, 9)] = (1%Z, 3, 3%Z).
+Proof. vm_compute. split; reflexivity. Qed.
